@@ -19,7 +19,7 @@ MANIFEST = dict(
     category='model_checking',
     text="Bounded symbolic execution of the real scaling graph evaluator: scale graphs of depth 1-3 over Linear / Polynomial / Add / "
          "Subtract (+ Table through a stated interp stub, + DAQmx raw scalers) with every coefficient and the raw value a symbolic "
-         "real and the input-source wiring a symbolic integer; oracle = independent recursive evaluation of the definitions; also "
+         "real and the input-source wiring a symbolic integer (raw data or any other scale, earlier or later, acyclic); oracle = independent recursive evaluation of the definitions; also "
          "lookup order channel -> group -> file with NI_Scaling_Status, inferred vs. declared number of scales, elementwise "
          "independence, and purity (the raw array object and its elements are unchanged after scaling, with astype(copy=False) "
          "aliasing modelled).  File level: scaling properties on channel / group / root in all object orders, eager and lazy, "
